@@ -35,6 +35,35 @@ theorem all_bodies_analysed : ∀ h : Host, analysed h = true := Cfg.all_hosts_a
 theorem build_reach (l : List Stmt) (r k : Bool) :
     (buildL l (some r) k).1 = some true ↔ (r = true ∧ (outL l).falls = true) := Cfg.build_reach l r k
 
+/-- the `coversEnum` flag of a match is computed exactly: it is set iff EVERY variant of the (non-empty) enum is named by an arm —
+    of an enum of any size, with the arms in any order and any multiplicity — so whichever variant the scrutinee holds at run time,
+    a covered match has an arm for it, and a match that is not covered has a concrete variant for which no arm exists -/
+theorem covers_enum_exact (variants arms : List String) :
+    matchCoversEnum variants arms = true ↔ variants ≠ [] ∧ ∀ v ∈ variants, v ∈ arms := by
+  unfold matchCoversEnum
+  cases variants <;> simp
+
+theorem uncovered_has_witness (variants arms : List String) (hne : variants ≠ [])
+    (h : matchCoversEnum variants arms = false) : ∃ v ∈ variants, v ∉ arms := by
+  unfold matchCoversEnum at h
+  cases variants with
+  | nil => exact absurd rfl hne
+  | cons a as =>
+    simp only [List.isEmpty_cons, Bool.not_false, Bool.true_and] at h
+    have : ¬ (∀ v ∈ a :: as, v ∈ arms) := by
+      intro hall
+      have : (a :: as).all (fun v => arms.contains v) = true := by
+        simp only [List.all_eq_true, List.contains_iff_mem]; exact hall
+      rw [this] at h; cases h
+    exact Classical.byContradiction fun hn => this fun v hv => Classical.byContradiction fun hv' => hn ⟨v, hv, hv'⟩
+
+/-- coverage does not depend on how many variants there are: the 65th variant counts like the first -/
+theorem covers_needs_every_position (pre post : List String) (v : String) (arms : List String) (h : v ∉ arms) :
+    matchCoversEnum (pre ++ v :: post) arms = false := by
+  cases hc : matchCoversEnum (pre ++ v :: post) arms with
+  | false => rfl
+  | true => exact absurd (((covers_enum_exact _ _).mp hc).2 v (by simp)) h
+
 -- non-vacuity / regression witnesses
 example : wfL false [.whileS true [.ifS [.brk] none], .ret] = true ∧ implAllPathsReturn [.whileS true [.ifS [.brk] none], .ret] = true := by decide
 example : implAllPathsReturn [.matchS [[.ret], [.ret]] false false] = false ∧ implAllPathsReturn [.matchS [[.ret], [.ret]] true false] = true := by decide
